@@ -5,6 +5,7 @@
 #include <stdint.h>
 #include <stddef.h>
 #include <pthread.h>
+#include <sys/poll.h>
 #include <fcntl.h>
 #include "poll.h"      /* private headers: read-only peeking for the state dump and batch recording */
 #include "ctx.h"
@@ -150,7 +151,47 @@ static void src_token(ev_src_t *p, char *buf, size_t n) {
         if (p->flags & M_SRC_INTERNAL) r = p->userptr == &p->mod->batch ? "b" : "t";
         snprintf(buf, n, "tmr:%s:%llu:%s", htok(p->mod), (unsigned long long)p->tmr_src.its.ns, r);
         break; }
+    case M_SRC_TYPE_TASK: snprintf(buf, n, "task:%s:%d", htok(p->mod), p->task_src.tid.tid); break;
     default: snprintf(buf, n, "other:%s:%d", htok(p->mod), p->type); break;
+    }
+}
+
+/* Task sources run on pool threads.  The library frees a task's source under its thread when the module is stopped, paused
+ * or deregistered meanwhile (known finding D-04g), and discards queued tasks at loop stop: to keep every script deterministic
+ * and on the safe side of that finding, every task that was started is given the time to finish before the library gets control
+ * back: before each script line, at the end of every callback and before every poll — its source's eventfd becoming readable
+ * is the last thing the task thread does with the source. */
+#include <stdatomic.h>
+static atomic_long g_task_adds, g_task_runs;
+static void *task_fn(void *arg) { atomic_fetch_add(&g_task_runs, 1); return (void *)((intptr_t)arg + 100); }
+/* the context's pool is only used for tasks: count what is handed to it, and let everything that was accepted at least start
+ * before the pool is freed (loop_stop frees it without waiting for queued tasks, which would then never run) */
+int __real_m_thpool_add(m_thpool_t *pool, m_thpool_task task, void *arg);
+int __wrap_m_thpool_add(m_thpool_t *pool, m_thpool_task task, void *arg) {
+    int rc = __real_m_thpool_add(pool, task, arg);
+    if (rc == 0) atomic_fetch_add(&g_task_adds, 1);
+    return rc;
+}
+int __real_m_thpool_free(m_thpool_t **pool, bool wait_all);
+int __wrap_m_thpool_free(m_thpool_t **pool, bool wait_all) {
+    for (int i = 0; i < 3000 && atomic_load(&g_task_runs) < atomic_load(&g_task_adds); i++) usleep(1000);
+    return __real_m_thpool_free(pool, wait_all);
+}
+static int settle_cb(void *up, void *data) {
+    (void)up;
+    ev_src_t *src = data;
+    if (src->ev && src->task_src.f.fd >= 0) {
+        struct pollfd pf = { src->task_src.f.fd, POLLIN, 0 };
+        poll(&pf, 1, 3000);
+    }
+    return 0;
+}
+static void settle_tasks(void) {
+    for (int i = 0; i < nh; i++) {
+        if (H[i].gone) continue;
+        m_mod_t *m = H[i].mod;
+        if (m->state != M_MOD_RUNNING || !m->srcs[M_SRC_TYPE_TASK] || m_bst_len(m->srcs[M_SRC_TYPE_TASK]) <= 0) continue;
+        m_bst_traverse(m->srcs[M_SRC_TYPE_TASK], M_BST_PRE, settle_cb, NULL);
     }
 }
 
@@ -158,6 +199,7 @@ int __real_poll_wait(poll_priv_t *priv, const int timeout);
 int __wrap_poll_wait(poll_priv_t *priv, const int timeout) {
     /* never block: the blocking loop is driven by polling; after a few empty polls the
      * environment forces a quit (recorded, so that the model can follow) */
+    settle_tasks();
     int n = __real_poll_wait(priv, 0);
     if (n < 0) n = 0;
     if (timeout != 0) loop_polls++;
@@ -246,8 +288,9 @@ static bool callback_body(void) {
     while (cur < S->nlines) {
         if (!strcmp(S->lines[cur], "leakcheck")) { cur++; T->leak_deferred_ = 1; return true; }
         int r = exec_line(S->lines[cur++]);
-        if (r >= 0) { if (g_errno_leave >= 0) { errno = g_errno_leave; g_errno_leave = -1; } return r; }
+        if (r >= 0) { settle_tasks(); if (g_errno_leave >= 0) { errno = g_errno_leave; g_errno_leave = -1; } return r; }
     }
+    settle_tasks();
     return true;
 }
 
@@ -268,6 +311,7 @@ static void tramp_evt(int k, m_mod_t *m, const m_queue_t *const evts) {
             break;
         case M_SRC_TYPE_FD: printf(" fd(f%d,u%ld)", fd_index(e->fd_evt->fd), (long)(intptr_t)e->userdata); break;
         case M_SRC_TYPE_TMR: printf(" tmr(%llu,u%ld)", (unsigned long long)e->tmr_evt->ns, (long)(intptr_t)e->userdata); break;
+        case M_SRC_TYPE_TASK: printf(" task(%d,%ld,u%ld)", e->task_evt->tid, (long)(intptr_t)e->task_evt->retval, (long)(intptr_t)e->userdata); break;
         default: printf(" other(%d)", e->type); break;
         }
     });
@@ -291,6 +335,7 @@ static m_src_flags prio_flags(const char *f) {
 }
 
 static int exec_line(const char *line) {
+    settle_tasks();
     char buf[256]; snprintf(buf, sizeof buf, "%s", line);
     char *t[10] = { 0 }; int n = split_ws(buf, t, 9);
     if (n == 0) return -1;
@@ -399,6 +444,12 @@ static int exec_line(const char *line) {
         result(m_mod_src_register_tmr(m, &its, fl, (void *)(intptr_t)idnum(t[4]))); return -1;
     }
     if (!strcmp(t[0], "dereg_tmr") && n == 3) { NEEDH(1, m); m_src_tmr_t its = { CLOCK_MONOTONIC, strtoull(t[2], NULL, 10) }; result(m_mod_src_deregister_tmr(m, &its)); return -1; }
+    /* task sources: the function runs on the context's thread pool and returns its argument + 100 (the event's retval) */
+    if (!strcmp(t[0], "reg_task") && n == 5) {
+        NEEDH(1, m); m_src_task_t tk = { atoi(t[2]), task_fn };
+        result(m_mod_src_register_task(m, &tk, prio_flags(t[3]), (void *)(intptr_t)idnum(t[4]))); return -1;
+    }
+    if (!strcmp(t[0], "dereg_task") && n == 3) { NEEDH(1, m); m_src_task_t tk = { atoi(t[2]), task_fn }; result(m_mod_src_deregister_task(m, &tk)); return -1; }
     /* the other source kinds: registry behaviour and the descriptors the poll plug-in creates for them (they never fire here) */
     if (!strcmp(t[0], "reg_sgn") && n == 5) {
         NEEDH(1, m); m_src_sgn_t sg = { (unsigned)atoi(t[2]) };
